@@ -77,6 +77,21 @@ def call(f, v):
         return "raise", f"{type(e).__name__}: {str(e)[:100]}"
 
 
+_TOL = [RTOL]  # relative tolerance in force (a case evaluated in single precision carries its own `rtol`)
+
+
+class _tolerance:
+    def __init__(self, case):
+        self.t = getattr(case, "rtol", None) or RTOL
+
+    def __enter__(self):
+        self.old = _TOL[0]
+        _TOL[0] = self.t
+
+    def __exit__(self, *a):
+        _TOL[0] = self.old
+
+
 def close(a, b):
     a, b = a.reshape(-1).to(torch.float64), b.reshape(-1).to(torch.float64)
     if a.shape != b.shape:
@@ -88,7 +103,7 @@ def close(a, b):
         return False
     a, b = a[fin], b[fin]
     scale = torch.maximum(torch.maximum(a.abs(), b.abs()), torch.ones_like(a))
-    return bool(((a - b).abs() <= RTOL * scale).all())
+    return bool(((a - b).abs() <= _TOL[0] * scale).all())
 
 
 def judge(ss, out, slices):
@@ -170,7 +185,8 @@ class Oracle:
             sl[s] = o
         if st == "raise":
             return "raises", out
-        return judge(ss, out, sl)
+        with _tolerance(self.case):
+            return judge(ss, out, sl)
 
 
 def subsets(names, thorough, rng):
@@ -550,6 +566,11 @@ def run(ck: Check):
     explore_objectives(ck, found)
     mixed_batch_joints(ck, found)
     explore_likelihood_terms(ck, found)
+    # magnitude contrast between the samples of one batch under the rescued / rescaled pruning pass (16 taxa,
+    # single and double precision): one sample with very short or very long branches, the others ordinary
+    t_mc = time.time() + (20 if not ck.thorough() else 90)
+    for case in CS.magnitude_contrast_cases():
+        explore_specials(ck, case, found, budget=t_mc)
     explore_routes(ck, found)
     ck.extra["tensor_constructors_without_dtype_or_device_in_anchored_files"] = scan_constructors_without_dtype()
     t_extra = time.time() + (25 if not ck.thorough() else 120)
@@ -626,7 +647,7 @@ def find_case(name, components=None, base=None):
     """look a case up by name; names written before the taxon count became part of the name (`,n=4`) still resolve:
     among the candidates the one whose parameter shapes equal those stored in the replay is taken"""
     cases = CS.all_cases(True) + CS.mixed_batch_components() + CS.json_cases() + CS.minimum_size_cases() + [
-        CS.soft_skygrid_distribution_case()] + CS.likelihood_term_cases()
+        CS.soft_skygrid_distribution_case()] + CS.likelihood_term_cases() + CS.magnitude_contrast_cases()
 
     def one(nm, shapes=None):
         exact = [c for c in cases if c.name == nm]
@@ -697,7 +718,8 @@ def replay(path: str) -> int:
         sl[s] = o
         row = out[s].reshape(-1)[:4].tolist() if tuple(out.shape[:len(ss)]) == ss else "(no row)"
         print(f"  sample {list(s)}: slice answer {o.reshape(-1)[:4].tolist()}  batched row {row}")
-    verdict, detail = judge(ss, out, sl)
+    with _tolerance(case):
+        verdict, detail = judge(ss, out, sl)
     print("verdict:", verdict, detail or "")
     bad_claim = False
     if obj.get("verdict") == "sample_shape" and math.prod(ss) > 1:
